@@ -4,7 +4,8 @@ CHECK = {
  'rule': 'rapid-generated node states (1-5 validators, history of 0-22 harness-built valid blocks with transactions, assets, events in all hooks, '
          'validator/threshold changes, aggregate commits, tiny/large block cache, event retention -1/1/3/300) then k<=4 applied blocks and deletion of '
          'every block above finality, with modes apply-delete / restore (re-apply with removeTemp) / sibling (reorg vs twin) / sync-detour (own blocks parked as temp blocks, 1-2 foreign blocks applied and removed without parking, parked blocks restored; the dump comparison then includes the temp blocks). Non-trivial = an applied '
-         'block carried a parameter change, or transactions + assets + events together. Distinct by digest of the block history',
+         'block carried a parameter change, or transactions + assets + events together. Distinct by digest of the block history'
+         ' Configuration draws include KeepEventsForHeights 0 (node.KeepEventsNone) next to -1/1/3/300.',
  'level_text': 'After every delete the full database dump, the cached tip, height/ID/transaction lookups and the BFT heights are compared byte for byte '
                'with the state recorded before the block was applied (exemptions: finalized marker, diffs/events pruned below the finality reached); '
                'temp blocks contain exactly the removed blocks when requested; a reorg to a sibling equals a twin node that applied the sibling first.',
